@@ -257,6 +257,10 @@ pub fn gen_cfg(prop: &str, seed: u64) -> RunCfg {
             // in a third of the runs one re-creation fails for an underlying reason: the deletion
             // must persist ("until re-created")
             let creations: Vec<usize> = cfg.ops.iter().enumerate().filter(|(_, o)| matches!(o, Op::CreateDir(_) | Op::Write { append: false, .. })).map(|(i, _)| i).collect();
+            // ... or one removal meets a failing underlying call: if it still reports success, the
+            // entry and everything inside it must be gone
+            let removals: Vec<usize> = cfg.ops.iter().enumerate().filter(|(_, o)| matches!(o, Op::RemoveDir(_) | Op::RemoveFile(_) | Op::RemoveDirAll(_))).map(|(i, _)| i).collect();
+            let creations = if !removals.is_empty() && (creations.is_empty() || g.rng.pct(40)) { removals } else { creations };
             if !creations.is_empty() && g.rng.pct(35) {
                 let kinds = ["Other", "PermissionDenied", "StorageFull"];
                 cfg.fault = Some(FaultPlan { op_index: creations[g.rng.below(creations.len())], k: g.rng.range(1, 14) as u64, sticky: false, kind: kinds[g.rng.below(3)].into(), nodes: if g.rng.pct(70) { u64::MAX } else { 1u64 << g.rng.below(nn) } });
@@ -761,11 +765,25 @@ pub fn gen_cfg(prop: &str, seed: u64) -> RunCfg {
                     }
                     3 => {
                         let t = g.target_w(&world.m[0], &[(Tc::Dir, 40), (Tc::AbsentInDir, 40), (Tc::File, 20)]);
-                        ops.push(match g.rng.below(3) {
+                        ops.push(match g.rng.below(5) {
                             0 => Op::EnvNonUtf8(P::new(&t)),
                             1 => Op::EnvDanglingSymlink(P::new(&t)),
+                            2 | 3 => Op::EnvSpecial(P::new(&t), g.rng.below(3) as u8),
                             _ => Op::EnvRemoveBehind(P::new(&t)),
                         });
+                        if g.rng.pct(50) {
+                            // look at it straight away, every way there is
+                            let pt = P::new(&t);
+                            ops.push(match g.rng.below(7) {
+                                0 => Op::Metadata(pt),
+                                1 => Op::IsFile(pt),
+                                2 => Op::IsDir(pt),
+                                3 => Op::ReadFile(pt, 64),
+                                4 => Op::ReadToString(pt),
+                                5 => Op::Exists(pt),
+                                _ => Op::RemoveFile(pt),
+                            });
+                        }
                     }
                     _ => {
                         // a composite right after: faults and hostile content meet recursion
@@ -1268,6 +1286,46 @@ pub fn gen_conc(prop: &str, seed: u64) -> crate::conc::ConcCfg {
                     pre.push(Pre { path: p.to_string(), file: Some(pl) });
                 }
             }
+        }
+        if rng.pct(22) {
+            // observer vs replacer: one thread looks at an entry (or its parent) while another
+            // removes it and creates an entry of the OTHER type (with content) at the same path
+            let p = uni[rng.below(uni.len())].to_string();
+            let par = parent_of(&p);
+            let mut pre2: Vec<Pre> = vec![];
+            for a in ancestors(&p) {
+                if !a.is_empty() {
+                    pre2.push(Pre { path: a, file: None });
+                }
+            }
+            let starts_as_dir = rng.pct(50);
+            let pl0 = payload(&mut rng);
+            pre2.push(Pre { path: p.clone(), file: if starts_as_dir { None } else { Some(pl0) } });
+            let observer = |rng: &mut Rng| match rng.below(6) {
+                0 | 1 => Op::Metadata(P::new(&p)),
+                2 => Op::Exists(P::new(&p)),
+                3 => Op::ReadDir(P::new(&p)),
+                4 => Op::ReadFile(P::new(&p), 64),
+                _ => Op::ReadDir(P::new(&par)),
+            };
+            let mut t0 = vec![observer(&mut rng)];
+            if rng.pct(35) {
+                t0.push(observer(&mut rng));
+            }
+            let mut t1 = vec![];
+            if starts_as_dir {
+                t1.push(Op::RemoveDir(P::new(&p)));
+                t1.push(Op::OpenWrite { p: P::new(&p), append: false, slot: 0 });
+                t1.push(Op::HWrite(0, payload(&mut rng)));
+                t1.push(Op::HDrop(0));
+            } else {
+                t1.push(Op::RemoveFile(P::new(&p)));
+                t1.push(Op::CreateDir(P::new(&p)));
+                if rng.pct(50) {
+                    t1.push(Op::CreateDir(P::new(&format!("{}/k", p))));
+                }
+            }
+            return ConcCfg { property: prop.into(), seed, spec: Spec::Mem { pre: pre2 }, program: vec![t0, t1], n_schedules: 60, schedule: None, sched_fs: false, setup: vec![] };
         }
         let nthreads = if rng.pct(70) { 2 } else { 3 };
         let mut program: Vec<Vec<Op>> = vec![vec![]; nthreads];
